@@ -344,6 +344,21 @@ def _unknown(msg):
     raise Unknown(msg)
 
 
+@rule('C02', 'R8', 29, 'the mask number announced in the format information is the mask that was applied (selection and requested path, C06.R2/R3)')
+def r8(fx):
+    from . import p06
+    yield from p06.r2(fx)
+    yield from p06.r3(fx)
+
+
+@rule('C02', 'R9', 44, 'every data placeholder is overwritten: remainder bits per version = modules not covered by codewords (C03.R5)')
+def r9(fx):
+    from . import p03
+    for o in p03.r5(fx):
+        if o.key.startswith('remainder bits') or o.key.startswith('order of res.extend'):
+            yield o
+
+
 @rule('C02', 'R4', 3, 'literal patterns: finder 7x7 with separator ring, alignment 5x5')
 def r4(fx):
     fp = C(fx, '_FINDER_PATTERN', 'encoder')
